@@ -57,10 +57,14 @@ THEOREMS = [
     "Lena.C20.State.get_set_other",
     "Lena.C20.State.statusOf_setStatus_same",
     "Lena.C20.State.statusOf_setStatus_other",
+    "Lena.C20.importMod_within",
+    "Lena.C20.loaded_within_closure",
     # instance (the current working tree; re-checked by the kernel on every run)
     "Lena.C20.current_tree_resolves",
     "Lena.C20.current_tree_safe",
     "Lena.C20.all_exported",
+    "Lena.C20.current_closures_ok",
+    "Lena.C20.current_loaded_within_closure",
 ]
 TRUSTED = [
     "Lean 4.33.0 kernel; axioms limited to propext, Classical.choice, Quot.sound (audited by #print axioms on every run)",
@@ -305,6 +309,8 @@ def compare(case, res, replies):
         if bool(m.get("exported")) != all(not s.get("missing") for s in res["star"].values()):
             return f"exportedB = {m.get('exported')} but the interpreter misses {[s.get('missing') for s in res['star'].values()]}"
         # the static import closure is the set of loaded modules
+        if not m.get("closureClosed"):
+            return "closedSetB is false for the import closure of this entry"
         if sorted(k for k in m["closure"] if not k.startswith("__main__")) != res["loaded"]:
             return (f"importClosure differs from sys.modules: {sorted(set(m['closure']) ^ set(res['loaded']) - {main})}")
         return None
